@@ -18,5 +18,17 @@ let () =
     end else if Array.length t = 4 && t.(0) = "E" then
       (* E <block size> <e_value_offs> <e_value_size> -> 1 accepted | 0 PR_1_EA_BAD_VALUE *)
       print_endline (if ea_value_ok (n_of_int (int_of_string t.(1))) (n_of_int (int_of_string t.(2))) (n_of_int (int_of_string t.(3))) then "1" else "0")
+    else if Array.length t = 3 && t.(0) = "RS" then
+      (* RS <readonly 0|1> <k missing inode tables> -> number of restarts of the repaired code | NONE *)
+      let rec nat_of_int i = if i = 0 then O else S (nat_of_int (i - 1)) in
+      (match restarts true (t.(1) = "1") (nat_of_int (int_of_string t.(2))) with
+       | Some n -> Printf.printf "%d\n" (int_of_nat n)
+       | None -> print_endline "NONE")
+    else if Array.length t = 4 && t.(0) = "IL" then begin
+      (* IL <inode table blocks per group> <bg_itable_unused> <inodes per block> -> table blocks that go into the image *)
+      let rec int_of_pos = function XH -> 1 | XO p -> 2 * int_of_pos p | XI p -> 2 * int_of_pos p + 1 in
+      let int_of_n = function N0 -> 0 | Npos p -> int_of_pos p in
+      Printf.printf "%d\n" (int_of_n (itable_len_new (n_of_int (int_of_string t.(1))) (n_of_int (int_of_string t.(2))) (n_of_int (int_of_string t.(3)))))
+    end
     else print_endline "?"
   done with End_of_file -> ()
